@@ -38,6 +38,16 @@ Clauses (C01): per worker and resource name the sum of the demands of the strate
   residents (a batch once) and of the loaded/pending profiles <= configured capacity; available
   never negative; a task is resident on at most one worker; pool map agrees with the workers.
 
+Every history is run from scratch on freshly built real objects (cast and cluster), except that a
+history whose last operation was refused and verifiably changed nothing hands its objects to the
+next sibling history.  Ids of violations encode <operation>.<failed clause> (not the history);
+two root causes get fixed ids wherever they surface: `allocate_multiple.partial_on_refusal`
+(refused request with two keys matching one worker key leaves the first key allocated) and
+`remove_task.phantom_batch` (C01: `remove_task.phantom_batch.oversubscribed`).  A clause failing on
+the instance the operation was NOT applied to is `<copy op>.not_independent.<operation>.<clause>`.
+Each recorded violation's replay is executed once against the repository before it is reported;
+a replay that does not exit 1 is listed under `undecided`.
+
 Pruning (stated in `bound`): (a) a refused operation ends the history (it changed nothing, so
 every extension equals the history without it); (b) a violation ends the history; (c) tasks /
 computations are interchangeable, so only histories using them in first-use order are run;
@@ -1241,7 +1251,7 @@ def _get_cfg(tier, pid, name):
     return _CFGS[key][name]
 
 
-_KIND_RANK = {"worker": 0, "resources": 1, "pool": 2}
+_KIND_RANK = {"resources": 0, "worker": 1, "pool": 2}
 
 
 def better(v, w):
@@ -1277,7 +1287,7 @@ class Acc(object):
         if res["nontrivial"]:
             self.nontrivial += 1
             if len(self.samples) < 1 and len(hist) >= 3 and not res["leaf"] and hist[0][0] not in ("copy", "deepcopy", "copyP", "deepcopyP") \
-                    and any(o[0] in ("copy", "copyP", "multi", "place") for o in hist[1:]):
+                    and len(set(o[0] for o in hist)) >= 3:
                 self.samples.append({"config": cfg.name, "history": [op_src(cfg, o) for o in hist]})
         if res["fn"]:
             self.fns[res["fn"]] = self.fns.get(res["fn"], 0) + 1
@@ -1315,7 +1325,7 @@ class Acc(object):
                 if better(v, cur[1]):
                     cur[1] = v
         for s in o.samples:
-            if len(self.samples) < 5 and not any(x["config"] == s["config"] for x in self.samples):
+            if len(self.samples) < 40 and not any(x["config"] == s["config"] for x in self.samples):
                 self.samples.append(s)
 
 
@@ -1433,7 +1443,8 @@ def main():
         truncated = truncated or getattr(acc, "truncated", False)
     R.evaluations = total.evals
     R.distinct.n = total.nontrivial
-    R.samples = total.samples[:5]
+    # one sample history per configuration; show the pool / worker ones first
+    R.samples = sorted(total.samples, key=lambda x: {"P": 0, "W": 1, "R": 2}[x["config"][0]])[:5]
     for k, n in sorted(total.fns.items()):
         R.called(k, n)
     # observation after every history (at least once per evaluated history)
